@@ -504,6 +504,34 @@ class UserMonitor:
                 b.violate('user.confinement', opn, 'wrong_exception_for_user_smc', 'User-mode SMC (opcode %#x, cpsr %#x, scr %#x, hcr %#x) dispatched %s instead of Undefined Instruction' % (
                     w_, pre_cpsr, r.scr.value, r.hcr.value, taken))
                 return
+            lpre = getattr(self.mon, 'last_pre', None)
+            if lpre is not None and getattr(self.mon, 'last_post_serial', None) == rec.get('serial') and len(taken) == 1:
+                # what the User-mode instruction did BEFORE its exception was raised (a privileged side effect followed by 'Undefined' is still a
+                # privileged side effect): every other mode's banked registers, the SPSRs, ELR_hyp and SCR are as they were when the step began
+                chg = [M.RNAMES[i] for i, (x, y) in enumerate(zip(rec['pre'][0], lpre[0])) if x != y and M.RNAMES[i] not in USERVIS]
+                if rec['pre'][2] != lpre[2]:
+                    chg.append('SPSR')
+                if rec['pre'][3] != lpre[3]:
+                    chg.append('ELR_hyp')
+                if rec['pre'][6] != lpre[6]:
+                    chg.append('SCR')
+                if (rec['pre'][1] ^ lpre[1]) & 0x1DF:
+                    chg.append('CPSR.AIFM')
+                if chg:
+                    b.violate('user.confinement', opn, 'privileged_state_changed_before_exception', 'User-mode %s (opcode %#x, cpsr %#x): %s changed before the %s exception was raised' % (
+                        opn, arm.opcode, pre_cpsr, chg, taken[0]))
+                    return
+            if len(taken) == 1 and not rec['nie']:
+                # ... and over the WHOLE step (instruction + entry) the only privileged state that may differ is what the entry itself writes: the masks and
+                # mode, the target mode's LR and SPSR (ELR_hyp / HSR for Hyp), the fault-reporting registers, bookkeeping
+                post_ = priv_snapshot(arm, b.case.get('privonly', ()))
+                tm = {0x11: 'fiq', 0x12: 'irq', 0x13: 'svc', 0x16: 'mon', 0x17: 'abt', 0x1a: 'hyp', 0x1b: 'und'}.get(mode, '?')
+                ok_keys = set(('cpsr.AIFM', 'R.LR' + tm, 'sys.spsr_' + tm, 'sys.elr_hyp', 'sys.hsr', 'sys.hpfar') + FAULT_REGS)
+                d_ = [k for k in b.user_pre if b.user_pre[k] != post_.get(k) and k not in ok_keys and not M.is_bookkeeping(r, k[4:] if k.startswith('sys.') else '_R')]
+                if d_:
+                    b.violate('user.confinement', opn, 'privileged_state_changed_by_excepting_step', 'User-mode %s (opcode %#x, cpsr %#x) took %s, and besides the entry changed: %s' % (
+                        opn, arm.opcode, pre_cpsr, taken[0], ', '.join('%s %s -> %s' % (x, _short(b.user_pre[x]), _short(post_.get(x))) for x in d_[:3])))
+                    return
             sp = r.get_spsr()
             if sp & 0x1F != 0x10:
                 b.violate('user.confinement', opn, 'spsr_not_user', 'after %s entry SPSR.M = %#x (CPSR before %#x)' % (taken[0], sp & 0x1F, pre_cpsr))
